@@ -27,7 +27,10 @@ def server_stats(Q):
 
 def worker(job, extra):
     seed = job['seed']
-    spec = job.get('spec') or gen.gen_spec(seed, dict(PROFILE))
+    prof = dict(PROFILE)
+    if seed % 4 == 3:   # exact arithmetic: the decimal context must be the same in every successive call
+        prof.update(p_exact=1.0, p_ps=0.0)
+    spec = job.get('spec') or gen.gen_spec(seed, prof)
     spec['tie'] = 'native'
     for nd in spec['nodes']:
         # a server_priority_function that reads busy_time inherits the open finding K10 (double-counted busy time after a
